@@ -49,6 +49,10 @@ void Optimizer::save(const std::string &path) const {
   writer << FileFormat::CurrentVersion::MINOR;
   writer << static_cast<std::uint32_t>(FileFormat::DataType::OPTIMIZER);
   writer << uint_configs << float_configs;
+  ofs.close();
+  if (ofs.fail()) {
+    PRIMITIV_THROW_ERROR("Could not write file: " << path);
+  }
 }
 
 void Optimizer::add_inner(Parameter &param) {
